@@ -23,7 +23,7 @@ RULE = ("Bounded-exhaustive: every literal content of <=3 (quick) / <=5 (thoroug
         "or the tail is not ' .'; distinct by statement text.")
 ASSUMPTIONS = ["generator builds valid N-Triples by construction; rdflib 6.0.2 NT parser cross-checks a sample of the enumeration "
                "and every Hypothesis case", "non-termination is detected by a 5 s alarm and confirmed by a line-event bound"]
-BUDGET = {"quick": {"examples": 16000, "wall": 240}, "thorough": {"examples": 320000, "wall": 7000}}
+BUDGET = {"quick": {"examples": 16000, "wall": 240}, "thorough": {"examples": 1000000, "wall": 5400}}
 EXHAUSTIVE = {"quick": True, "thorough": True}
 FLOORS = {"nontrivial": 0.5}
 
